@@ -231,7 +231,7 @@ var (
 
 func run(r *ev.Run) {
 	setupChains()
-	r.Rule("E3 complete products through the real HandleMsg4: (A) opcode 0..255 x message type {absent,0..255} with a rich header; (B) op=1,type in {DISCOVER,REQUEST} x xid{0,ffffffff,01020304} x htype{1,6,255} x hlen{0,6,16,17,255} x flags{0,8000,7fff,ffff} x giaddr{0,set} x ciaddr{0,set} x opt82 x opt61 x chain{empty,range,server_id+range,NAK plugin,nil plugin}; (B2) option 82 of {absent,1,2,100,190,200,255} octets x option 61 of {absent,2,80,255} x option 57 {absent,300,576,1500} x giaddr x type x chain; (B3) the same requests with every send failing / the raw socket refused (EPERM, EACCES): what is handed to the socket still matches; (B4) every other option code in three payload shapes added to a relayed request; (C) every truncation of 3 seeds. Oracle on raw bytes with an independent parser. Class = chain/opcode class/type class/#replies/reply type.")
+	r.Rule("E3 complete products through the real HandleMsg4: (A) opcode 0..255 x message type {absent,0..255} with a rich header; (B) op=1,type in {DISCOVER,REQUEST} x xid{0,ffffffff,01020304} x htype{1,6,255} x hlen{0,6,16,17,255} x flags{0,8000,7fff,ffff} x giaddr{0,set} x ciaddr{0,set} x opt82 x opt61 x chain{empty,range,server_id+range,NAK plugin,nil plugin}; (B2) option 82 of {absent,1,2,100,190,200,255} octets x option 61 of {absent,2,80,255} x option 57 {absent,300,576,1500} x giaddr x type x chain; (B3) the same requests with every send failing / the raw socket refused (EPERM, EACCES): what is handed to the socket still matches; (B5) a client that holds a lease requesting its own / another / an outside / a malformed address (option 50) x flags x giaddr x ciaddr; (B4) every other option code in three payload shapes added to a relayed request; (C) every truncation of 3 seeds. Oracle on raw bytes with an independent parser. Class = chain/opcode class/type class/#replies/reply type.")
 	r.Assume("listener bound to " + bif.Name + "; reply captured at WriteTo or as the L2 frame before the AF_PACKET socket; malformed message-type options (length != 1) and a missing END option are not asserted")
 	// (A)
 	for op := 0; op < 256; op++ {
@@ -312,6 +312,38 @@ func run(r *ev.Run) {
 								p.Opts = append(p.Opts, pkt.Opt4{Code: 61, Data: d})
 							}
 							eval(r, chain, p.Bytes(), fmt.Sprintf("option 82 of %d, option 61 of %d octets, max message size %d", l82, l61, mms))
+						}
+					}
+				}
+			}
+		}
+	}
+	// (B5) a client that already holds a lease (every request above came from the same hardware
+	// address) asks for addresses: its own, another one, one outside the range, malformed
+	for _, chain := range []string{"range", "server_id+range"} {
+		first := richHeader()
+		first.Opts = []pkt.Opt4{{Code: 53, Data: []byte{1}}}
+		eval(r, chain, first.Bytes(), "DISCOVER that makes sure the client holds a lease")
+		for _, mt := range []byte{1, 3} {
+			for _, fl := range []uint16{0, 0x8000} {
+				for gi := 0; gi < 2; gi++ {
+					for ci := 0; ci < 2; ci++ {
+						for _, o50 := range [][]byte{{10, 0, 0, 10}, {10, 0, 0, 11}, {10, 0, 3, 250}, {10, 0, 9, 9}, {192, 0, 2, 200}, {0, 0, 0, 0}, {255, 255, 255, 255}, {10, 0, 0}} {
+							for _, o54 := range [][]byte{nil, {192, 0, 2, 1}} {
+								p := richHeader()
+								p.Flags = fl
+								if gi == 1 {
+									p.GI = [4]byte{10, 0, 0, 1}
+								}
+								if ci == 1 {
+									p.CI = [4]byte{10, 0, 0, 77}
+								}
+								p.Opts = []pkt.Opt4{{Code: 53, Data: []byte{mt}}, {Code: 50, Data: o50}, opt61}
+								if o54 != nil {
+									p.Opts = append(p.Opts, pkt.Opt4{Code: 54, Data: o54})
+								}
+								eval(r, chain, p.Bytes(), fmt.Sprintf("known client requesting address %v", o50))
+							}
 						}
 					}
 				}
